@@ -79,7 +79,7 @@ def make_store(kind: str, root: str, cap: int, fresh_dirs: bool = True) -> Any:
 
 class Runner(object):
     def __init__(self, kind: str, root: str, cap: int, keys: List[str], none_keys: List[str],
-                 path_strs: Dict[int, str], track_alive: bool = False):
+                 path_strs: Dict[int, str], track_alive: bool = False, handles: int = 1):
         self.kind = kind
         self.root = root
         self.cap = cap
@@ -89,7 +89,12 @@ class Runner(object):
         self.rev_path = {v: k for (k, v) in path_strs.items()}
         self.rev_key = {real_key(k): k for k in keys}
         os.makedirs(root, exist_ok=True)
-        self.store = make_store(kind, root, cap)
+        # several store objects over the same directories (as two processes, or an old handle kept
+        # while the store is reopened, would have): operations rotate over them
+        self.handles = handles if kind != "memory" else 1
+        self.stores = [make_store(kind, root, cap) for _ in range(self.handles)]
+        self.nops = 0
+        self.store = self.stores[0]
         self.track_alive = track_alive
         self.refs: List[Any] = []
 
@@ -114,6 +119,10 @@ class Runner(object):
     def op(self, op: str, arg: Any) -> Dict[str, Any]:
         from dds.structures import DDSException
         out: Dict[str, Any] = {}
+        self.nops += 1
+        if self.handles > 1 and op != "reopen":
+            # a deterministic but irregular rotation
+            self.store = self.stores[(self.nops * 7 // 3) % self.handles]
         try:
             if op == "store":
                 self.store.store_blob(real_key(arg), value_of(arg, self.none_keys), None)
@@ -159,8 +168,10 @@ class Runner(object):
                         raise
             elif op == "reopen":
                 self.store = None
+                self.stores = []
                 gc.collect()
-                self.store = make_store(self.kind, self.root, self.cap)
+                self.stores = [make_store(self.kind, self.root, self.cap) for _ in range(self.handles)]
+                self.store = self.stores[0]
                 out["ans"] = ["ok"]
             else:
                 raise ValueError(op)
@@ -183,9 +194,9 @@ def norm_model_ans(op: str, ans: Any) -> Any:
 
 
 def run_history(kind: str, cap: int, hist: List[Dict[str, Any]], root: str, keys: List[str],
-                none_keys: List[str], path_strs: Dict[int, str], track_alive: bool = False
-                ) -> List[Dict[str, Any]]:
-    r = Runner(kind, root, cap, keys, none_keys, path_strs, track_alive)
+                none_keys: List[str], path_strs: Dict[int, str], track_alive: bool = False,
+                handles: int = 1) -> List[Dict[str, Any]]:
+    r = Runner(kind, root, cap, keys, none_keys, path_strs, track_alive, handles)
     try:
         res = []
         for h in hist:
